@@ -313,3 +313,31 @@ def coverage(ck, cases, out, step, limit, extra=None):
 
 RULE = ("a case = an environment script (connects, byte arrivals, faults, stream events, polls); distinct by "
         "hash of the script; non-trivial = at least two byte arrivals")
+
+
+# ---------------------------------------------------------------- mutation self-test (not run by the checks)
+# Property-breaking edits of /repo's server sources that compile and pass the 185 baseline tests; each
+# was detected by the relevant check (VIOLATION with a replay) when the harness was built against it
+# (try one with `ZV_REPO=<scratch worktree with the edit> bin/check C18 quick`, or prebuild the harness
+# and pass it as ZV_SERVER_BIN).  (file, old text, new text)
+MOD = "zlink-core/src/server/mod.rs"
+SEL = "zlink-core/src/server/select_all.rs"
+RC = "zlink-core/src/connection/read_connection.rs"
+SERVER_MUTANTS = {
+ "start_at_winner": [(MOD, "last_method_call_winner.map(|idx| idx + 1),", "last_method_call_winner,")],
+ "start_at_zero": [(MOD, "last_method_call_winner.map(|idx| idx + 1),", "None,")],
+ "remove_not_swap": [(MOD, "let conn = connections.swap_remove(idx);", "let conn = connections.remove(idx);")],
+ "remove_wrong_index": [(MOD, "let conn = connections.swap_remove(idx);", "let conn = connections.swap_remove(0);")],
+ "stream_swap_remove_wrong": [(MOD, "let stream = reply_streams.swap_remove(idx);", "let stream = reply_streams.swap_remove(0);")],
+ "resume_front": [(MOD, "connections.push(stream.conn);", "connections.insert(0, stream.conn);")],
+ "reply_on_last": [(MOD, "self.handle_call(call, connections[idx].write_mut()).await", "self.handle_call(call, connections.last_mut().unwrap().write_mut()).await")],
+ "answer_oneway": [(MOD, "_ if oneway => (),", "_ if oneway && false => (),")],
+ "drop_on_service_error": [(MOD, "MethodReply::Error(err) => writer.send_error(&err).await?,", "MethodReply::Error(err) => { writer.send_error(&err).await?; return Err(crate::Error::SocketWrite); }")],
+ "stop_on_read_error": [(MOD, 'Err(e) => warn!("Error reading from socket: {:?}", e),', "Err(e) => return Err(e),")],
+ "lose_buffered_on_resume": [(RC, "    /// The underlying read half of the socket.\n    pub fn read_half", "    pub(crate) fn discard_buffered(&mut self) { self.read_pos = 0; self.msg_pos = 0; }\n    /// The underlying read half of the socket.\n    pub fn read_half"),
+                             (MOD, "let stream = reply_streams.swap_remove(idx);", "let mut stream = reply_streams.swap_remove(idx); stream.conn.read_mut().discard_buffered();")],
+ "stream_start_at_winner": [(MOD, "let start_index = last_reply_stream_winner.map(|idx| idx + 1);", "let start_index = last_reply_stream_winner;")],
+ "select_skips_start": [(SEL, "let idx = (start_idx + i) % num_futures;", "let idx = (start_idx + i + 1) % num_futures;")],
+ "item_write_failure_ignored": [(MOD, "reply_streams.swap_remove(idx);\n                            }", "}")],
+ "lastc_stuck_at_zero": [(MOD, "last_method_call_winner = Some(idx);", "last_method_call_winner = Some(idx * 0);")],
+}
